@@ -113,7 +113,9 @@ theorem readPointer_ne_panic (s : String) : readPointer s ≠ .panic := by
   · exact newPathM_ne_panic _
   · split
     · simp
-    · exact newPathM_ne_panic _
+    · split
+      · simp
+      · exact newPathM_ne_panic _
 
 theorem strField_ne_panic (kvs : List (String × Json)) (k : String) :
     patchOpsOfJson.strField kvs k ≠ .panic := by
